@@ -12,8 +12,11 @@ mkdir -p /tmp/confirm "$OUT"
 git -C /repo worktree remove --force "$WT" 2>/dev/null
 git -C /repo worktree add -q --detach "$WT" HEAD || exit 2
 cd "$WT"
-cp "$SRC/patch.diff" "$OUT/patch.diff"
-DEMO=$(ls "$SRC"/*_test.go | head -1)
+PATCH="$SRC/patch.diff"
+# a patch ported to the current /repo HEAD (hooks + fixes) takes precedence
+if [ -f "$OUT/patch.diff" ] && ! git apply --check "$SRC/patch.diff" 2>/dev/null; then PATCH="$OUT/patch.diff"; else cp "$SRC/patch.diff" "$OUT/patch.diff"; fi
+cp "$PATCH" /tmp/confirm/$ID$V.patch
+DEMO=$(find "$SRC" -name '*_test.go' | head -1)
 DEMOBASE=$(basename "$DEMO")
 # find where the demo goes: notes.md / demo_path.txt mention the path; default by package clause
 PKG=$(grep -m1 '^package ' "$DEMO" | awk '{print $2}')
@@ -28,13 +31,16 @@ case "$PKG" in
 esac
 cp "$DEMO" "$OUT/$DEMOBASE"
 APPLY=ok
-git apply "$SRC/patch.diff" || APPLY=fail
+git apply /tmp/confirm/$ID$V.patch || APPLY=fail
 SUITE=skip; DEMO_WITH=skip; DEMO_WITHOUT=skip
 if [ $APPLY = ok ]; then
-  if go build ./... >/dev/null 2>&1 && go test -vet=off -count=1 ./... > "$OUT/suite_with.log" 2>&1; then SUITE=pass; else SUITE=fail; fi
+  if go build ./... >/dev/null 2>&1 && go test -vet=off -count=1 ./... > "$OUT/suite_with.log" 2>&1; then SUITE=pass; else
+    # flaky tests exist on the unchanged tree (TestDerive, TestMultipleReconcilersPerModuleMetrics under load): one more try
+    if go test -vet=off -count=1 ./... > "$OUT/suite_with.log" 2>&1; then SUITE=pass; else SUITE=fail; fi
+  fi
   cp "$DEMO" "$DIR/$DEMOBASE"
   if go test -vet=off -count=1 -run 'Seeded' ./$DIR/ > "$OUT/demo_with.log" 2>&1; then DEMO_WITH=pass; else DEMO_WITH=fail; fi
-  git apply -R "$SRC/patch.diff"
+  git apply -R /tmp/confirm/$ID$V.patch
   if go test -vet=off -count=1 -run 'Seeded' ./$DIR/ > "$OUT/demo_without.log" 2>&1; then DEMO_WITHOUT=pass; else DEMO_WITHOUT=fail; fi
 fi
 cd /
